@@ -106,6 +106,71 @@ fn check(case: &Case, p: &mut Probe) -> Check {
     Ok(())
 }
 
+/// histories on any matrix (checks of degree 0 and 1 included, where the min*-type arithmetics
+/// panic by contract): per call the *outcome* (result, or a panic) of the long-lived decoder must be
+/// that of a fresh one
+fn wild_strategy(_t: Tier) -> BoxedStrategy<Case> {
+    super::c03::any_matrix()
+        .prop_flat_map(|h| {
+            let n = h.cols;
+            let call = (proptest::collection::vec(any_llr(), n), limit_strategy(), 0..100u8);
+            (shuffled(Just(h)), proptest::collection::vec(call, 2..=6))
+        })
+        .prop_map(|(h, raw)| {
+            let mut calls: Vec<Call> = Vec::new();
+            for (llrs, limit, repeat) in raw {
+                if repeat < 20 && !calls.is_empty() {
+                    let prev = calls[(repeat as usize) % calls.len()].clone();
+                    calls.push(Call { llrs: prev.llrs, limit });
+                } else {
+                    calls.push(Call { llrs: llrs.into_iter().map(Fx).collect(), limit });
+                }
+            }
+            Case { h, calls }
+        })
+        .boxed()
+}
+
+fn check_wild(case: &Case, p: &mut Probe) -> Check {
+    let hs = case.h.to_sparse();
+    let mut any_panic = false;
+    for imp in factory_variants() {
+        let name = imp.to_string();
+        // construction may itself reject the matrix: then there is no object to reuse
+        let Ok(mut long_lived) = guarded(|| build_factory(&imp, hs.clone())) else {
+            any_panic = true;
+            continue;
+        };
+        for (i, call) in case.calls.iter().enumerate() {
+            let llrs = fx_vec(&call.llrs);
+            let got = guarded(|| long_lived.decode(&llrs, call.limit));
+            let want = guarded(|| build_factory(&imp, hs.clone()).decode(&llrs, call.limit));
+            p.inner += 1;
+            match (&got, &want) {
+                (Ok(a), Ok(b)) => {
+                    if a != b {
+                        return Err(Fail::new("stale", format!("{name}: call {i} (limit {}) on the long-lived decoder returned {a:?}, a fresh decoder returns {b:?}", call.limit)));
+                    }
+                }
+                (Err(_), Err(_)) => {
+                    // both panicked (e.g. a check of degree one under a min*-type arithmetic): the object
+                    // may be left in any state by a panic, so its history ends here
+                    any_panic = true;
+                    break;
+                }
+                (Err(e), Ok(b)) => return Err(Fail::new("stale", format!("{name}: call {i} (limit {}) panicked on the long-lived decoder ({e}), a fresh decoder returns {b:?}", call.limit))),
+                (Ok(a), Err(e)) => return Err(Fail::new("stale", format!("{name}: call {i} (limit {}) on the long-lived decoder returned {a:?}, a fresh decoder panics ({e})", call.limit))),
+            }
+        }
+    }
+    p.class_if(case.h.row_lists().iter().any(|r| r.len() <= 1), "check-of-degree<=1");
+    p.class_if(any_panic, "some-implementation-panicked");
+    if case.calls.len() >= 2 {
+        p.nontrivial();
+    }
+    Ok(())
+}
+
 pub fn property() -> Property {
     Property {
         id: "C10",
@@ -125,6 +190,14 @@ pub fn property() -> Property {
                 strategy: |_| strategy(24, 60, 8),
                 check,
                 health: &[],
+            }),
+            Box::new(Sub {
+                name: "fresh-vs-reused-any-matrix",
+                rule: "any matrix 1..=8 x 1..=12 (checks of degree 0 and 1, isolated variables, shuffled insertion order), histories of 2..=6 calls with LLRs from the C01 catalogue (20 % repeating an earlier frame under another limit): per call the outcome of the long-lived decoder, a result or a panic, must be that of a fresh decoder; a history ends at the first call on which both panic",
+                cases: |t| t.pick(6_000, 200_000),
+                strategy: wild_strategy,
+                check: check_wild,
+                health: &[("check-of-degree<=1", 0.30)],
             }),
             Box::new(Sub {
                 name: "real-codes",
